@@ -332,16 +332,16 @@ MORE = ['b.css', 'deep', 'c.json', 'single', 'a', 'b', 'engine', 'noext',
 
 def lifespan_cases(rec):
     import engineio
-    for cb, other in itertools.product(['none', 'sync', 'async', 'raise',
-                                        'araise'], [False, True]):
+    kinds = ['none', 'sync', 'async', 'raise', 'araise']
+    for cb, cb2, other in itertools.product(kinds, kinds, [False, True]):
         for phase in ('both', 'startup-only'):
             rec.evaluations += 1
             rec.count('lifespan')
-            rec.key('lifespan/%s/%s/%s' % (cb, other, phase))
+            rec.key('lifespan/%s/%s/%s/%s' % (cb, cb2, other, phase))
             calls = []
             delegated = []
 
-            def mk(name, cb=cb):
+            def mk(name, cb):
                 if cb == 'none':
                     return None
                 if cb == 'sync':
@@ -375,8 +375,8 @@ def lifespan_cases(rec):
                 async def handle_request(self, *a):
                     pass
             app = engineio.ASGIApp(Eng(), otherapp if other else None,
-                                   on_startup=mk('startup'),
-                                   on_shutdown=mk('shutdown'))
+                                   on_startup=mk('startup', cb),
+                                   on_shutdown=mk('shutdown', cb2))
             inbox = [{'type': 'lifespan.startup'}]
             if phase == 'both':
                 inbox.append({'type': 'lifespan.shutdown'})
@@ -407,7 +407,7 @@ def lifespan_cases(rec):
                 elif t.exception() is not None:
                     raise t.exception()
                 return done
-            case = {'lifespan': [cb, other, phase]}
+            case = {'lifespan': [cb, cb2, other, phase]}
             try:
                 loop = asyncio.new_event_loop()
                 try:
@@ -419,7 +419,8 @@ def lifespan_cases(rec):
                     e, case), case)
                 continue
             raising = cb in ('raise', 'araise')
-            if other and cb == 'none':
+            raising2 = cb2 in ('raise', 'araise')
+            if other and cb == 'none' and cb2 == 'none':
                 want = ['lifespan.startup.complete'] + (
                     ['lifespan.shutdown.complete'] if phase == 'both' else [])
                 if delegated != ['lifespan'] or sent != want:
@@ -433,15 +434,17 @@ def lifespan_cases(rec):
             if raising:
                 want = ['lifespan.startup.failed']
             else:
-                want = ['lifespan.startup.complete'] + (
-                    ['lifespan.shutdown.complete'] if phase == 'both' else [])
+                want = ['lifespan.startup.complete'] + ([
+                    'lifespan.shutdown.failed' if raising2 else
+                    'lifespan.shutdown.complete'] if phase == 'both' else [])
             if sent != want:
-                rec.viol('lifespan-protocol', 'callbacks=%s wrapped=%r phase='
-                         '%s: sent %r, protocol requires %r' % (
-                             cb, other, phase, sent, want), case)
-            if cb != 'none':
-                wc = ['startup'] + (['shutdown'] if phase == 'both' and
-                                    not raising else [])
+                rec.viol('lifespan-protocol', 'callbacks=%s/%s wrapped=%r '
+                         'phase=%s: sent %r, protocol requires %r' % (
+                             cb, cb2, other, phase, sent, want), case)
+            if cb != 'none' or cb2 != 'none':
+                wc = (['startup'] if cb != 'none' else []) + (
+                    ['shutdown'] if phase == 'both' and not raising and
+                    cb2 != 'none' else [])
                 if calls != wc:
                     rec.viol('lifespan-callbacks', 'callbacks ran %r, '
                              'expected %r' % (calls, wc), case)
